@@ -300,8 +300,88 @@ def run_lives(ctx):
         shutil.rmtree(sandbox, True)
 
 
+def run_preexisting(ctx):
+    """what is already there when a persistent Filer opens: a directory or a file at its path (left by an earlier run), or a
+    head directory in which its tail cannot be made (then the alternate head directory is used).  Judged at the level of the
+    property: everything created or deleted lies inside the head directory in use, close(clear) removes the path."""
+    from hio.base import filing
+    from hio import hioing
+    sandbox = core.scratch_dir("hioverif_c29_")
+    alt = os.path.join("p", "q", "r", "alt")
+    try:
+        for pre in ("dir", "file", "blocked"):
+            for name in (["a"], ["a", "b"]):
+                for clean in (False, True):
+                    for filed in (False, True):
+                        for ext in (False, True):
+                            for clear in (False, True):
+                                for x in os.listdir(sandbox):
+                                    shutil.rmtree(os.path.join(sandbox, x), True)
+                                head = os.path.join(sandbox, *HEAD)
+                                os.makedirs(head)
+                                os.makedirs(os.path.join(sandbox, "p", "q", "r", "keep"))
+                                open(os.path.join(sandbox, "p", "q", "r", "keep", "sentinel"), "w").close()
+                                tail = ["hio", "clean"] if clean else ["hio"]
+                                leaf = name[:-1] + [name[-1] + (".text" if filed or ext else "")]
+                                target = os.path.join(head, *tail, *leaf)
+                                if pre == "blocked":
+                                    with open(os.path.join(head, "hio"), "w") as fh:      # the tail directory cannot be made
+                                        fh.write("x")
+                                else:
+                                    os.makedirs(os.path.dirname(target))
+                                    if pre == "dir":
+                                        os.makedirs(target)
+                                        open(os.path.join(target, "old"), "w").close()
+                                    else:
+                                        open(target, "w").close()
+                                saved = filing.Filer.AltHeadDirPath
+                                filing.Filer.AltHeadDirPath = os.path.join(sandbox, alt)
+                                before = snapshot(sandbox)
+                                desc = "Filer(name=%r, clean=%s, filed=%s, extensioned=%s) with %s" % (
+                                    os.path.join(*name), clean, filed, ext,
+                                    {"dir": "a directory already at its path", "file": "a file already at its path",
+                                     "blocked": "a file where its tail directory should be"}[pre])
+                                ctx.case(("pre", pre, tuple(name), clean, filed, ext, clear))
+                                bad = None
+                                try:
+                                    with Guard(sandbox) as g:
+                                        f = None
+                                        try:
+                                            with core.watchdog():
+                                                f = filing.Filer(name=os.path.join(*name), headDirPath=head, clean=clean, filed=filed,
+                                                                 extensioned=ext, reopen=True)
+                                        except (hioing.FilerError, OSError):
+                                            pass          # refusing is allowed; what was touched is judged below
+                                        opened = snapshot(sandbox)
+                                        if f is not None:
+                                            try:
+                                                f.close(clear=clear)
+                                            except OSError:
+                                                pass
+                                        closed = snapshot(sandbox)
+                                        if g.refused:
+                                            bad = "tried to touch the filesystem outside the sandbox: %s" % g.refused[:3]
+                                    touched = (opened ^ before) | (closed ^ opened)
+                                    inuse = alt if (f is not None and f.path and os.path.relpath(f.path, sandbox).startswith(alt)) else os.path.join(*HEAD)
+                                    out = sorted(p for p in touched if not inside(p, inuse))
+                                    if not bad and out:
+                                        bad = "created or deleted outside the head directory %s: %s" % (inuse, out[:4])
+                                    # (what was there before the Filer is not its creation: leaving it is allowed)
+                                    if not bad and f is not None and clear and os.path.lexists(f.path) \
+                                            and os.path.relpath(f.path, sandbox) not in before:
+                                        bad = "close(clear=True) left %s, which this Filer created" % os.path.relpath(f.path, sandbox)
+                                finally:
+                                    filing.Filer.AltHeadDirPath = saved
+                                if bad:
+                                    ctx.violation("%s, close(clear=%s): %s" % (desc, clear, bad),
+                                                  {"pre": [pre, name, clean, filed, ext, clear]})
+    finally:
+        shutil.rmtree(sandbox, True)
+
+
 def run(ctx):
     run_lives(ctx)
+    run_preexisting(ctx)
     gen = {"MCFilerPath.tla": "---- MODULE MCFilerPath ----\nEXTENDS FilerPathGen\nMCHead == %s\nMCTempHead == %s\n====\n" % (
         core.tlaval.to_tla(HEAD), core.tlaval.to_tla(TEMPHEAD))}
     segs = {"a", "headx", "..", "."}   # "headx": a sibling of the head directory whose name starts with the head's name
@@ -342,6 +422,10 @@ def run(ctx):
 def replay_case(ctx, case):
     sandbox = core.scratch_dir("hioverif_c29_")
     try:
+        if "pre" in case:
+            n = len(ctx.violations)
+            run_preexisting(ctx)
+            return [ctx.violations[n][0]] if len(ctx.violations) > n else []
         if "life" in case:
             bad = judge_life(case["life"]["steps"], execute_life(sandbox, case["life"]["flags"], case["life"]["steps"]))
             return [bad] if bad else []
